@@ -192,3 +192,33 @@ func sample(t *gen.Node, extra map[string]interface{}) map[string]interface{} {
 func driftOwner(a, b *errorspb.EncodedError) string { return famShort(sim.DriftOwner(a, b)) }
 
 type syscallErrno = syscall.Errno
+
+// ---- net.OpError with both a local and a remote address (kind operrboth, weight 0) -------
+//
+// The library's special-case printer renders such an error as "op net src -> addr", the
+// standard library's Error() as "op net src->addr". The spaced form is pinned by the
+// repository's own TestRedact, so this is recorded as a known finding and the kind is kept
+// out of the random generators; the probes below place it explicitly, so that the finding is
+// re-observed (and anything ELSE that goes wrong with this shape is still reported under
+// another signature).
+
+const opErrArrowSig = "net.OpError-source-and-addr"
+
+func opErrBothTrees(g *gen.Gen) []*gen.Node {
+	leaf := func() *gen.Node { return g.Make("goerr", nil, nil) }
+	ob := func() *gen.Node { return g.Make("operrboth", []*gen.Node{leaf()}, nil) }
+	return []*gen.Node{ob(), g.Around("wrap", ob()), g.Around("hint", g.Around("wrapf", ob())), g.Make("join", []*gen.Node{ob(), leaf()}, nil)}
+}
+
+// arrowOnly: a and b differ, and only in the spacing around the address arrow.
+func arrowOnly(a, b string) bool {
+	n := func(s string) string { return strings.ReplaceAll(strings.ReplaceAll(s, " -> ", "->"), " ->", "->") }
+	return a != b && n(a) == n(b)
+}
+
+func arrowClass(a, b string) string {
+	if arrowOnly(a, b) {
+		return opErrArrowSig
+	}
+	return "operrboth-other"
+}
